@@ -203,10 +203,14 @@ func (s *session) call(c *callSpec) (res string) {
 					done <- "ok " + msgsString([]rscp.Message{*m})
 				}
 			} else {
+				before := msgsString(c.reqs)
 				ms, err := s.cl.SendMultiple(c.reqs)
-				if err != nil {
+				if after := msgsString(c.reqs); after != before {
+					done <- "modified-requests " + trunc(after, 100)
+				} else if err != nil {
 					done <- "err " + clientErrClass(err)
 				} else {
+					retain(ms, "ok "+msgsString(ms))
 					done <- "ok " + msgsString(ms)
 				}
 			}
@@ -418,7 +422,9 @@ func init() {
 		}
 		for i := 0; i < n; i++ {
 			user, pw := "user"+strconv.Itoa(g.pick(100)), string(g.bytes(1+g.pick(12)))
-			s, err := newSession(user, pw, string(g.bytes(1+g.pick(40))), 120*time.Millisecond, uint16(1+g.pick(3)))
+			key := string(g.bytes(1 + g.pick(40)))
+			user, pw, key = g.edgeCredentials(i, user, pw, key)
+			s, err := newSession(user, pw, key, 120*time.Millisecond, uint16(1+g.pick(3)))
 			if err != nil {
 				continue
 			}
@@ -481,8 +487,46 @@ func init() {
 				}
 			}
 			s.close()
+			if v := authFirstViolation(res, s.authTag, user, pw); v != "" {
+				addVerdict(&prop, "FAIL C09 "+v)
+			}
+			if ch := retainedChanged(); ch != "" && prop == "pass" {
+				prop = "FAIL * " + ch
+			}
+			for _, r := range res {
+				if strings.HasPrefix(r, "modified-requests") {
+					prop = "FAIL * SendMultiple modified the caller's requests: " + trunc(r, 120)
+				}
+			}
 			cw.add(fmt.Sprintf("hist %s %s | %s", hexOf([]byte(user)), hexOf([]byte(pw)), strings.Join(ops, " | ")), strings.Join(res, " | "),
 				fmt.Sprintf("N hist depth=%d", depth), prop)
 		}
 	}
+}
+
+// edgeCredentials: every third session uses a user name, password or key with white space, line breaks or NUL at its
+// ends (or consisting of nothing else): credentials and key travel exactly as configured
+func (g *gen) edgeCredentials(i int, user, pw, key string) (string, string, string) {
+	if i%3 != 1 {
+		return user, pw, key
+	}
+	edges := []string{"\n", "\r\n", "\r", " ", "\t", "\x00", "\n\n", " \n"}
+	e := edges[g.pick(len(edges))]
+	switch g.pick(7) {
+	case 0:
+		user += e
+	case 1:
+		pw += e
+	case 2:
+		key += e
+	case 3:
+		user, pw = e+user, e+pw
+	case 4:
+		user, pw, key = user+e, pw+e, key+e
+	case 5:
+		pw = e
+	default:
+		key = e + key
+	}
+	return user, pw, key
 }
